@@ -286,6 +286,34 @@ def oracle(ctx):
         if impl.get('out') != exp or impl.get('log') != log:
             ctx.violation('every reached expression occurrence is evaluated exactly once per reach, in document order (identical texts included)',
                           {'src': src, 'vars': [['R', {'fn': 'R'}]]}, expected={'out': exp, 'log': log}, actual=impl)
+    # import: expressions - also several in one template whose targets share their last name
+    import importlib
+    IMPORTS = [('html.escape', "'a.b&c'"), ('re.escape', "'a.b&c'"), ('os.path.join', "'a', 'b'"), ('shlex.join', "['a b', 'c']"),
+               ('posixpath.basename', "'x/y:z'"), ('ntpath.basename', "'x/y:z'"), ('math.floor', '2.5'), ('operator.neg', '3'),
+               ('json.dumps', "[1]"), ('textwrap.shorten', "'a b c d', 6"), ('string.capwords', "'a b'"), ('fnmatch.translate', "'*.x'")]
+    for _ in range(ctx.budget(120, 4000)):
+        picks = ctx.rng.sample(IMPORTS, ctx.rng.randint(1, 3))
+        if ctx.rng.random() < 0.5:
+            # force a pair with the same last name
+            picks = ctx.rng.choice([[IMPORTS[0], IMPORTS[1]], [IMPORTS[2], IMPORTS[3]], [IMPORTS[4], IMPORTS[5]], [IMPORTS[1], IMPORTS[0]]])
+        src, want = '', ''
+        for i, (dotted, args) in enumerate(picks):
+            mod, _, fn = dotted.rpartition('.')
+            val = eval('f(%s)' % args, {'f': getattr(importlib.import_module(mod), fn)})
+            if ctx.rng.random() < 0.5:
+                src += '<p tal:define="f%d import:%s">${f%d(%s)}</p>' % (i, dotted, i, args)
+            else:
+                src += '<p tal:define="f%d import: %s" tal:content="f%d(%s)"/>' % (i, dotted, i, args)
+            want += '<p>%s</p>' % html.escape(str(val), quote=False)
+        ctx.count('evaluations')
+        nt += 1
+        try:
+            got = PageTemplate(src)()
+        except Exception as e:
+            got = {'exc': type(e).__name__, 'msg': str(e)[:120]}
+        if got != want:
+            ctx.violation('import: must evaluate to the object the dotted name denotes (each occurrence its own)', {'src': src, 'kwargs': {}},
+                          expected=want, actual=got)
     # opaque Python against plain eval
     for _ in range(ctx.budget(800, 30000)):
         c = opaque_case(ctx.rng)
